@@ -174,14 +174,17 @@ class SingleWriter(object):
 class DryRun(object):
     name = 'dry-run'
     describe = ('putData(dryRun=True) for every writer x destination x data, and MibCompiler.compile(writeMibs=False / dryRun=True) '
-                'through the real writers: the directory tree is unchanged')
+                'through the real writers, also followed by buildIndex(dryRun=True): the directory tree is unchanged')
 
     VIA = {'compile-dryRun': {'dryRun': True}, 'compile-writeMibs-off': {'writeMibs': False},
            'compile-dryRun-writeMibs-on': {'dryRun': True, 'writeMibs': True},
            'compile-dryRun-off-writeMibs-off': {'dryRun': False, 'writeMibs': False},
            'compile-dryRun-None-writeMibs-off': {'dryRun': None, 'writeMibs': False},
            'compile-dryRun-writeMibs-off': {'dryRun': True, 'writeMibs': False},
-           'compile-writeMibs-off-ignoreErrors': {'writeMibs': False, 'ignoreErrors': True, 'rebuild': True, 'genTexts': True}}
+           'compile-writeMibs-off-ignoreErrors': {'writeMibs': False, 'ignoreErrors': True, 'rebuild': True, 'genTexts': True},
+           # ... followed by buildIndex() with the same options, as mibdump --dry-run --build-index does
+           'compile+buildIndex-dryRun': {'dryRun': True, 'index': True},
+           'compile+buildIndex-dryRun-ignoreErrors': {'dryRun': True, 'ignoreErrors': True, 'index': True}}
 
     def blocks(self, tier):
         return [{'w': w} for w in WRITERS]
@@ -214,7 +217,10 @@ class DryRun(object):
             comp.addSources(env.DictReader(texts))
             comp.addSearchers(env.StubSearcher(*env.BASE_NAMES))
             opts = dict(self.VIA[case['via']])
+            index = opts.pop('index', False)
             res = comp.compile('TEST-MIB', **opts)
+            if index and 'file' in case['w']:
+                comp.buildIndex(res, **opts)
             after = faultfs.snapshot(root)
             vs = []
             if after != before:
@@ -283,10 +289,15 @@ class TwoWriters(object):
     case_timeout = 600
     name = 'two-writers'
     describe = ('two putData() calls for the same module with different data, every interleaving of their I/O calls '
-                '(cooperative scheduler, switch point before every proxy call)')
+                '(cooperative scheduler, switch point before every proxy call); also two PyFileWriters in a directory where byte-compiling '
+                'fails for both (every schedule with <=3 preemptions, thorough: all): writer errors only, nothing partial')
 
     def blocks(self, tier):
         out = [{'w': 'file', 'dest': 'empty'}, {'w': 'file', 'dest': 'old-content'}, {'w': 'py.nocompile', 'dest': 'old-content'}]
+        # a directory in which byte-compiling fails for everybody (every schedule with <= 3 preemptions; thorough: all)
+        for fault in ('OSError', 'ValueError'):
+            out += [{'w': 'py', 'dest': dest, 'always': {'py_compile.compile': fault}, 'bound': None if tier == 'thorough' else 3}
+                    for dest in ('empty', 'old-content')]
         if tier == 'thorough':
             out += [{'w': 'file', 'dest': 'absent'}, {'w': 'py', 'dest': 'empty'}, {'w': 'py.nocompile', 'dest': 'absent'}]
         return out
@@ -315,7 +326,7 @@ class TwoWriters(object):
                 return 'ok'
 
             sch = sched.Scheduler([body, body])
-            rec = faultfs.Recorder({}, on_point=lambda site: sch.point(site))
+            rec = faultfs.Recorder(case.get('always') or {}, on_point=lambda site: sch.point(site))
             ctx['rec'] = rec
             ctx['patch'] = faultfs.Patched(rec)
             ctx['patch'].__enter__()
@@ -337,6 +348,8 @@ class TwoWriters(object):
                     if not isinstance(e, error.PySmiWriterError):
                         probs.append(('foreign-exception|%s' % type(e).__name__, repr(e)))
                 allowed = [datas[t].encode() for t in ok_writers] or [old]
+                if case.get('always'):
+                    allowed.append(None)   # a failure while byte-compiling an already stored module may remove that module
                 if content not in allowed:
                     probs.append(('destination-not-one-of-the-writers-complete-texts',
                                   'content %r..., writers that returned normally %r' % ((content or b'')[:30], ok_writers)))
@@ -346,14 +359,15 @@ class TwoWriters(object):
                         probs.append(('stray-entry-left-behind', 'entry %s' % k))
                 outcomes.add((content == datas[0].encode(), tuple(sorted(run.errors))))
                 for p, d in probs:
-                    sig = 'C13|two-writers|%s|%s|%s' % (case['w'].split('.')[0], case['dest'], p)
+                    sig = 'C13|two-writers|%s|%s|%s' % (case['w'].split('.')[0] + ('+byte-compiling-fails' if case.get('always') else ''),
+                                                        case['dest'], p)
                     if sig not in seen_sigs:
                         seen_sigs.add(sig)
                         vs.append((sig, '%s\nschedule %r\ntrace %r' % (d, choices, ctx['rec'].trace)))
             finally:
                 shutil.rmtree(ctx['root'], ignore_errors=True)
 
-        for _ in sched.explore(make, check):
+        for _ in sched.explore(make, check, bound=case.get('bound')):
             pass
         return ('schedules=%d' % nsched[0], tuple(sorted(outcomes))), vs, (nsteps[0], nsched[0] - 1)
 
